@@ -18,6 +18,10 @@ type C08Case struct {
 	// back references to the enclosing document (`<-`): an extra WHERE conjunct and/or select item
 	BackWhere string `json:"back_where,omitempty"`
 	BackItem  string `json:"back_item,omitempty"`
+	// FailWhere: an extra WHERE conjunct (arithmetic on a column) that cannot be evaluated on one row of one inner
+	// array, where the generator has put a text into that column: the query fails on that inner array alone, so
+	// the nested query (and the mix=> query) must fail too - never return the other inner arrays' results
+	FailWhere string `json:"fail_where,omitempty"`
 }
 
 func init() {
@@ -100,6 +104,28 @@ func genC08(t *rapid.T) any {
 			}
 		}
 	}
+	if rapid.IntRange(0, 5).Draw(t, "failrow") == 0 {
+		// one row of one inner array holds a text where the extra conjunct does arithmetic
+		var leafRows []map[string]any
+		var walk func(a []any)
+		walk = func(a []any) {
+			for _, x := range a {
+				switch v := x.(type) {
+				case []any:
+					walk(v)
+				case map[string]any:
+					leafRows = append(leafRows, v)
+				}
+			}
+		}
+		walk(c.Doc["nn"].([]any))
+		if len(leafRows) > 0 {
+			col := pt.Ints[0]
+			leafRows[rapid.IntRange(0, len(leafRows)-1).Draw(t, "failrow.i")][col] = "x"
+			c.FailWhere = "(" + col + " + 1) > -100000"
+			c.Where = nil
+		}
+	}
 	// siblings of nn that queries inside the inner arrays reach through `<-`
 	icol := pt.Ints[0]
 	pool := pt.Tb.Col(icol).Pool
@@ -128,6 +154,16 @@ func (c *C08Case) sql(from string) string {
 		s += ", " + c.BackItem
 	}
 	s += " FROM " + from
+	if c.FailWhere != "" {
+		w := c.FailWhere
+		if c.Where != nil {
+			w += " AND " + sq.Render(c.Where, nil)
+		}
+		if c.BackWhere != "" {
+			w += " AND " + c.BackWhere
+		}
+		return s + " WHERE " + w
+	}
 	switch {
 	case c.Where != nil && c.BackWhere != "":
 		s += " WHERE " + sq.Render(c.Where, nil) + " AND " + c.BackWhere
@@ -165,7 +201,7 @@ func checkC08(c *C08Case) Result {
 	nn, _ := c.Doc["nn"].([]any)
 	sql := c.sql("nn")
 	var flat []any
-	nonEmptyLeaves, rejected := 0, 0
+	nonEmptyLeaves, rejected, failedLeaves := 0, 0, 0
 	failed := ""
 	var expect func(a []any, depth int) []any
 	expect = func(a []any, depth int) []any {
@@ -174,6 +210,10 @@ func checkC08(c *C08Case) Result {
 			res.Execs++
 			if !out.OK() {
 				failed = out.Describe()
+				failedLeaves++
+				if c.FailWhere != "" {
+					return nil // keep going: the other inner arrays are evaluated as well
+				}
 				return nil
 			}
 			if len(a) > 0 {
@@ -186,13 +226,27 @@ func checkC08(c *C08Case) Result {
 		r := make([]any, 0, len(a))
 		for _, ch := range a {
 			r = append(r, any(expect(ch.([]any), depth+1)))
-			if failed != "" {
+			if failed != "" && c.FailWhere == "" {
 				return nil
 			}
 		}
 		return r
 	}
 	want := expect(nn, 0)
+	if failed != "" && c.FailWhere != "" {
+		// the query cannot be evaluated on (at least) one inner array: nested and flattened execution must fail too
+		res.Labels = append(res.Labels, "an-inner-array-fails")
+		res.NonTrivial = nonEmptyLeaves >= 1
+		for _, q := range []string{sql, c.sql("`mix=>nn`")} {
+			out := Run(val.CopyMap(c.Doc), q, Opts{})
+			res.Execs++
+			if out.Panic != "" || out.OK() {
+				res.Violation = fmt.Sprintf("%s\n  source %s\n  run directly on one of the inner arrays the query fails (%s), here it returned %s", q, val.JSON(nn), truncate(failed, 120), out.Describe())
+				return res
+			}
+		}
+		return res
+	}
 	if failed != "" {
 		res.Discard = "query fails on a leaf array: " + truncate(failed, 60)
 		return res
